@@ -394,6 +394,7 @@ def run_check(pid, tier, seed, jobs, only=None, verbose=False, record_baseline=F
         lines.append(f'VIOLATION property={pid} replay={path}{suffix}')
         vio_records.append(rec)
         exit_code = 1
+    kf_bounded = []
     for b, res in bounded_results:
         kf_id = b.get('expect_kf') or res.get('class') or (res.get('known') or {}).get('class')
         if kf_id and kf_id in known_ids and (res.get('reproduced') or res.get('known')):
@@ -401,6 +402,7 @@ def run_check(pid, tier, seed, jobs, only=None, verbose=False, record_baseline=F
             if not any(kf_id in l for l in lines):
                 lines.append(f"KNOWN-FINDING: property={pid} {kf_id} {b['obligation']}: {k['what_fails']}")
             if res.get('reproduced') and (b.get('expect_kf') or res.get('class')) == kf_id:
+                kf_bounded.append(id(res))
                 continue
         if res.get('reproduced'):
             path = os.path.join(OUT_DIR, 'replay', f'{pid}-{safe(b["obligation"])}.json')
@@ -442,9 +444,15 @@ def run_check(pid, tier, seed, jobs, only=None, verbose=False, record_baseline=F
         {'clause': b['what'], 'bound': b['bound'], 'driver': b['driver'], 'labelled': 'bounded (not counted as proved)',
          'result': {k: v for k, v in res.items() if k in ('reproduced', 'detail', 'cases', 'input')}}
         for b, res in bounded_results]
-    evidence['violations'] += sum(1 for b, res in bounded_results if res.get('reproduced'))
-    os.makedirs(EVID_DIR, exist_ok=True)
-    with open(os.path.join(EVID_DIR, f'{pid}.json'), 'w') as f:
+    # a listed known finding reproduced by its probe is reported as KNOWN-FINDING, not counted as a violation
+    evidence['violations'] += sum(1 for b, res in bounded_results if res.get('reproduced') and id(res) not in kf_bounded)
+    evidence['coverage']['known_findings_reproduced'] = [l.split(' ', 3)[2] for l in lines if l.startswith('KNOWN-FINDING:')]
+    # the evidence file describes a full check of /repo; a partial run (--only) or a run on a scratch tree (VERIF_REPO)
+    # is written under out/ and never replaces it
+    partial = bool(only) or os.path.realpath(os.environ.get('VERIF_REPO', '/repo')) != os.path.realpath('/repo')
+    evid_dir = os.path.join(OUT_DIR, 'evidence-partial') if partial else EVID_DIR
+    os.makedirs(evid_dir, exist_ok=True)
+    with open(os.path.join(evid_dir, f'{pid}.json'), 'w') as f:
         json.dump(evidence, f, indent=1, default=str)
 
     if record_baseline:
